@@ -262,6 +262,9 @@ bool TaskScheduler::TryRunTask( uint32_t threadNum, uint32_t& hintPipeToCheck_io
             SubTaskSet taskToRun = SplitTask( subTask, subTask.pTask->m_RangeToRun );
             SplitAndAddTask( threadNum, subTask, subTask.pTask->m_RangeToRun );
             taskToRun.pTask->ExecuteRange( taskToRun.partition, threadNum );
+#ifdef RKCOMMON_VERIF
+            RKCOMMON_VERIF_POINT("ts.after_execute", this);
+#endif
             AtomicAdd( &taskToRun.pTask->m_RunningCount, -1 );
         }
         else
@@ -269,6 +272,9 @@ bool TaskScheduler::TryRunTask( uint32_t threadNum, uint32_t& hintPipeToCheck_io
 
             // the task has already been divided up by AddTaskSetToPipe, so just run it
             subTask.pTask->ExecuteRange( subTask.partition, threadNum );
+#ifdef RKCOMMON_VERIF
+            RKCOMMON_VERIF_POINT("ts.after_execute", this);
+#endif
             AtomicAdd( &subTask.pTask->m_RunningCount, -1 );
         }
     }
@@ -326,6 +332,9 @@ void TaskScheduler::SplitAndAddTask( uint32_t threadNum_, SubTaskSet subTask_, u
     while( subTask_.partition.start != subTask_.partition.end )
     {
         SubTaskSet taskToAdd = SplitTask( subTask_, rangeToSplit_ );
+#ifdef RKCOMMON_VERIF
+        RKCOMMON_VERIF_POINT("ts.split_loop", this);
+#endif
 
         // add the partition to the pipe
         AtomicAdd( &subTask_.pTask->m_RunningCount, 1 );
@@ -401,6 +410,9 @@ void    TaskScheduler::WaitforTask( const ICompletable* pCompletable_ )
     {
         while( pCompletable_->m_RunningCount )
         {
+#ifdef RKCOMMON_VERIF
+            RKCOMMON_VERIF_POINT("ts.wait_spin", this);
+#endif
             TryRunTask( gtl_threadNum, hintPipeToCheck_io );
             // should add a spin then wait for task completion event.
         }
